@@ -317,7 +317,32 @@ class Gen:
 
 
 def gen_schema(seed, size=None, adversarial_text=True):
-    return Gen(seed, size, adversarial_text).build()
+    S = Gen(seed, size, adversarial_text).build()
+    # the empty URL is a URL too (decided from the seed alone, so that the generator's random stream stays as it was)
+    if seed % 4 == 1:
+        for t in S["types"]:
+            if t["kind"] == "SCALAR" and not t["name"].startswith("__") and t["name"] not in ("Int", "Float", "String", "Boolean", "ID"):
+                t["specifiedBy"] = "" if t["specifiedBy"] is None or seed % 8 == 1 else t["specifiedBy"]
+                break
+    # object values in defaults are generated with their keys in definition order, which is also sorted order: turn them
+    # round in a third of the schemas (the order of the keys of a literal is part of what is printed and introspected)
+    if seed % 3 == 2:
+        def rev(v):
+            if v["t"] == "o":
+                v["kv"] = [[k, rev(x)] for k, x in reversed(v["kv"])]
+            elif v["t"] == "l":
+                v["v"] = [rev(x) for x in v["v"]]
+            return v
+        for t in S["types"]:
+            for f in t["fields"]:
+                for a in f["args"]:
+                    rev(a["default"])
+            for f in t["inputFields"]:
+                rev(f["default"])
+        for d in S["directives"]:
+            for a in d["args"]:
+                rev(a["default"])
+    return S
 
 
 # valid definitions that carry the name of a specified directive but differ from it (older drafts, vendor variants)
@@ -463,7 +488,7 @@ def to_sdl(S, types=None, directives=None, with_schema_block=True):
         k = t["kind"]
         head = desc_sdl(t["description"])
         if k == "SCALAR":
-            out.append(head + f"scalar {t['name']}" + (f" @specifiedBy(url: {q(t['specifiedBy'])})" if t["specifiedBy"] else ""))
+            out.append(head + f"scalar {t['name']}" + (f" @specifiedBy(url: {q(t['specifiedBy'])})" if t["specifiedBy"] is not None else ""))
         elif k in ("OBJECT", "INTERFACE"):
             impl = (" implements " + " & ".join(t["interfaces"])) if t["interfaces"] else ""
             fs = "\n".join(desc_sdl(f["description"], "  ") + f"  {f['name']}" + args_sdl(f["args"], "  ") + f": {tstr(f['type'])}" + depr_sdl(f["deprecation"])
@@ -502,6 +527,15 @@ def val_py(v):
     return {k: val_py(x) for k, x in v["kv"]}
 
 
+def _keys_turned(v):
+    if v["t"] == "o":
+        ks = [k for k, _ in v["kv"]]
+        return ks != sorted(ks) or any(_keys_turned(x) for _, x in v["kv"])
+    if v["t"] == "l":
+        return any(_keys_turned(x) for x in v["v"])
+    return False
+
+
 def to_objects(S):
     from graphql.type import (GraphQLSchema, GraphQLObjectType, GraphQLInterfaceType, GraphQLUnionType, GraphQLEnumType, GraphQLEnumValue,
                               GraphQLInputObjectType, GraphQLInputField, GraphQLScalarType, GraphQLField, GraphQLArgument, GraphQLList,
@@ -527,7 +561,13 @@ def to_objects(S):
             pv = val_py(a["default"])
             key = repr((type(pv).__name__, pv))
             if key not in shared_defaults:
-                shared_defaults[key] = GraphQLDefaultInput(value=pv)
+                if _keys_turned(a["default"]):
+                    # a default *value* is printed with its fields in definition order; only a default *literal* keeps
+                    # the order in which it was written (gen_schema turns the keys round in a third of the schemas)
+                    from graphql.language import parse_const_value
+                    shared_defaults[key] = GraphQLDefaultInput(literal=parse_const_value(val_sdl(a["default"])))
+                else:
+                    shared_defaults[key] = GraphQLDefaultInput(value=pv)
             kw["default"] = shared_defaults[key]
         return cls(ref(a["type"]), **kw)
 
